@@ -161,10 +161,15 @@ Definition restart_engine (c : val) : val :=
                 match kf_name maxcap aws with
                 | Some k => if model_ok && mem_ok then verdict 3 tg nontriv [VB k; VN (first_diff 0 o1 o2)]
                             else verdict 1 tg nontriv [VN (first_diff 0 o1 o2)]
-                | None => verdict 1 tg nontriv [VN (first_diff 0 o1 o2)]
+                | None => if superseded_delivery es && model_ok
+                          then verdict 3 tg nontriv [VB (tag "KF_C20_takeover_delivery"); VN (first_diff 0 o1 o2)]
+                          else verdict 1 tg nontriv [VN (first_diff 0 o1 o2)]
                 end
               else if negb model_ok then verdict 2 tg nontriv [VN 1; VN (first_diff 0 (vals_of_rstate rs) snap2)]
-              else if negb mem_ok then verdict 2 tg nontriv [VN 2; VN (first_diff 0 (observe_astate maxcap (arun aws)) o1)]
+              else if negb mem_ok then
+                if superseded_delivery es
+                then verdict 3 tg nontriv [VB (tag "KF_C20_takeover_delivery"); VN (first_diff 0 (observe_astate maxcap (arun aws)) o1)]
+                else verdict 2 tg nontriv [VN 2; VN (first_diff 0 (observe_astate maxcap (arun aws)) o1)]
               else verdict 0 tg nontriv []
           | _, _ => bad_case
           end
